@@ -198,9 +198,11 @@ def start_point(draw, spec, allow_none=True):
         x0 = []
         for j in range(n):
             lo, hi = lb[j], ub[j]
-            if np.isfinite(lo) and (pick[j] or not np.isfinite(hi)):
+            # the 1e20 / 1e30 "no bound" encodings are not corners: a start at 1e30 is outside every class
+            fin_lo, fin_hi = abs(lo) < 1e19, abs(hi) < 1e19
+            if fin_lo and (pick[j] or not fin_hi):
                 x0.append(float(lo))
-            elif np.isfinite(hi):
+            elif fin_hi:
                 x0.append(float(hi))
             else:
                 x0.append(float(raw[j]))
